@@ -55,6 +55,17 @@ var propertyConfigs = map[string]*propertyConfig{
 			"NOT decided: anything about programs (noise budget, exactness after decoding), the value of the scale-matching factors and of the recorded scale after scale matching, relinearisation, multiply-then-add, the scale-invariant (BFV) style, the scale recorded by a product, plaintext and vector operands, the VALUE of a rescaled component (rounded division is not a ring operation)"),
 		Trusted:     stdTrusted,
 	},
+	"C06": {
+		ID: "C06", Packages: []string{"./..."}, Level: "proof",
+		Explain: "Per-call clauses of the property that involve no floating point (one call of the approximate evaluator, not programs).  ckks.Evaluator.Add / Sub with a ciphertext operand at EQUAL scales (no operand has to be rescaled), degrees (1,1), (1,2), (2,1), receiver distinct or equal to either operand: the component-wise sum / difference in the ring, a component only one operand has is copied - negated when it is the subtrahend's - and the output has the larger degree.  " +
+			"Add / Sub with a real scalar: the output records the scale of the input whatever the receiver held (finding F34), has the degree of the input, and the untouched components are copied.  " +
+			"Mul of two degree-1 ciphertexts without relinearisation: the degree-2 tensor (a0*b0, a0*b1 + a1*b0, a1*b1) out of the Montgomery domain, receiver distinct or equal to either operand.  " +
+			"Rescale: on success the receiver has the degree and flags of the input whatever it held, every index is in range (obligation kind index), and an input at level 0 is refused with an error.",
+		Assumptions: append(append([]string{}, engineBAssumptions...), "the outcome of comparing two scales is NAMED (cmpval), not interpreted: the contracts cover the branch for equal scales",
+			"the conversion of a scalar to RNS form (bigComplexToRNSScalar), the row operation with a scalar (evaluateWithScalar), Scale.Mul / Div and the rounded divisions are TRUSTED abstract leaves",
+			"NOT decided: everything numerical (approximation error, precision, noise), operands at different scales (integer ratio rescaling), the VALUE of the scale recorded by a product or a rescale, relinearisation, rotations, plaintext and vector operands, programs"),
+		Trusted:     stdTrusted,
+	},
 	"C14": {
 		ID: "C14", Packages: []string{"./..."}, Level: "proof",
 		Explain: "Abstract contracts on the collective public-key protocol: GenShare = e_i - s_i*crp with one fresh error draw, in NTT/Montgomery form on Q and P; AggregateShares = +; GenPublicKey = (aggregate, crp). " +
